@@ -197,15 +197,16 @@ class Sequences(Harness):
     functions = ("OneLineBuffer.from_raw_buffer/_get_buffer_extractor/_modify_for_carriage_return/get_data", "FastQBuffer.get_data/"
                  "get_field_by_number/_validate", "MultiLineFastaBuffer.from_raw_buffer/get_data", "QualityEncoding",
                  "NumpyFileReader.read (final newline / entry marker handling)")
-    bounds = {"quick": "two-line FASTA, FASTQ (with and without '+name'), FASTA wrapped at width 2-3; 1-3 records, name length 1-3, "
-                       "sequence length 1-5 (unequal), LF/CRLF, final newline or none",
+    bounds = {"quick": "two-line FASTA, FASTQ (with and without '+name'), FASTA wrapped at width 2-3; 1-3 records, name length 0-3 (an empty name among "
+                       "non-empty ones included), sequence length 1-5 (unequal), LF/CRLF, final newline or none",
               "thorough": "more length patterns, width 1-4"}
 
     def skeletons(self, tier, seed):
         out = []
-        recsets = [[[1, 1]], [[2, 3], [1, 1]], [[1, 2], [3, 4], [2, 1]]]
+        recsets = [[[1, 1]], [[2, 3], [1, 1]], [[1, 2], [3, 4], [2, 1]],
+                   [[0, 1], [2, 2]], [[1, 2], [0, 1], [2, 1]]]         # a record whose name is empty ('>' / '@' alone) among named ones
         if tier == "thorough":
-            recsets += [[[3, 5], [1, 5]], [[1, 1], [1, 1], [1, 6]]]
+            recsets += [[[3, 5], [1, 5]], [[1, 1], [1, 1], [1, 6]], [[0, 2], [0, 1]], [[2, 1], [0, 3]]]
         for recs in recsets:
             for crlf, nofinal in ((False, False), (True, False), (False, True)):
                 out.append(dict(fmt="fasta2", records=recs, crlf=crlf, no_final_newline=nofinal))
@@ -268,6 +269,7 @@ VCF_HEADER = ("##fileformat=VCFv4.2\n"
               "##INFO=<ID=FLA,Number=0,Type=Flag,Description=\"a flag whose name starts with another flag's name\">\n"
               "##INFO=<ID=FLX,Number=1,Type=Integer,Description=\"a key whose name starts with a flag's name\">\n"
               "##INFO=<ID=XDP,Number=1,Type=Integer,Description=\"a key whose name ends with another key's name\">\n"
+              "##INFO=<ID=AF,Number=1,Type=Float,Description=\"a float-valued key\">\n"
               "##FORMAT=<ID=GT,Number=1,Type=String,Description=\"Genotype\">\n"
               "#CHROM\tPOS\tID\tREF\tALT\tQUAL\tFILTER\tINFO\tFORMAT\tS1\tS2\n")
 
@@ -278,7 +280,7 @@ class VCF(Harness):
     functions = ("VCFBuffer._get_field_by_number (POS-1)/_get_info_field/_get_dataclass_field/_extract_genotypes",
                  "NamedBufferExtractor.get_field_by_name/has_field_name", "VCFMatrixBuffer (GenotypeRowEncoding.encode/decode)",
                  "TextBufferExtractor.get_padded_field(stop_at=':')", "FileBuffer.read_header")
-    bounds = {"quick": "1-2 records; widths chrom 1-2, POS 1-3 digits, ID 1-2, REF/ALT 1-2; INFO 'DP=<1-2 digits>' or 'FL;DP=<d>'; FORMAT GT or GT:DP "
+    bounds = {"quick": "1-2 records; widths chrom 1-2, POS 1-3 digits, ID 1-2, REF/ALT 1-2; INFO 'DP=<1-2 digits>' or 'FL;DP=<d>', a Float key AF written d.d / .d / .dd / d or absent; FORMAT GT or GT:DP "
                        "with 2 samples whose alleles/separators are symbolic over {0,1,2,.}x{/,|}; one sample may lack its sub-fields; "
                        "histories: the same file parsed first with another buffer type (VCFBuffer/VCFBuffer2/VCFMatrixBuffer/PhasedVCFMatrixBuffer)",
               "thorough": "3 records, wider fields"}
@@ -296,6 +298,13 @@ class VCF(Harness):
         sets.append([R(1, 1, 1, 1, 1, "flx_dp", 1, "GT", ["gt", "gt"]), R(1, 2, 1, 1, 1, "dp_fl", 2, "GT", ["gt", "gt"]),
                      R(1, 1, 1, 1, 1, "xdp_dp", 1, "GT", ["gt", "gt"])])
         sets.append([R(1, 1, 1, 1, 1, "fla_fl_dp", 1, "GT", ["gt", "gt"]), R(1, 1, 1, 1, 1, "xdp_dp", 2, "GT", ["gt", "gt"])])
+        # a Float key: digits around the decimal point given by (digits before, digits after); (0, k) is the form '.5' without a leading zero;
+        # every record of a set may have that form, or only some, or a record may lack the key
+        AF = lambda rec, shape: dict(rec, af=shape)
+        sets.append([AF(R(1, 1, 1, 1, 1, "dp", 1, "GT", ["gt", "gt"]), (0, 1))])
+        sets.append([AF(R(1, 1, 1, 1, 1, "dp", 1, "GT", ["gt", "gt"]), (0, 2)), AF(R(1, 1, 1, 1, 1, "fl_dp", 1, "GT", ["gt", "gt"]), (0, 1))])
+        sets.append([AF(R(1, 1, 1, 1, 1, "dp", 1, "GT", ["gt", "gt"]), (1, 1)), AF(R(1, 1, 1, 1, 1, "dp", 1, "GT", ["gt", "gt"]), (0, 1))])
+        sets.append([AF(R(1, 1, 1, 1, 1, "dp", 1, "GT", ["gt", "gt"]), (1, 0)), R(1, 1, 1, 1, 1, "dp", 1, "GT", ["gt", "gt"])])
         if tier == "thorough":
             sets.append([R(1, 1, 1, 1, 1, "dp", 1, "GT:DP", ["gt:3", "gt"]), R(3, 4, 1, 3, 1, "fl_dp", 2, "GT:DP", ["gt:1", "gt:1"]),
                          R(1, 1, 1, 1, 1, "dp", 1, "GT:DP", ["gt:1", "gt:3"])])
@@ -328,6 +337,9 @@ class VCF(Harness):
             V.assume(z_or([V.vars[f"v{r}_p{j}"].t != 48 for j in range(rec["pos"])]))      # POS >= 1
             for j in range(rec["dpw"]):
                 V.int(f"v{r}_d{j}", 48, 57)
+            if rec.get("af"):
+                for j in range(sum(rec["af"])):
+                    V.int(f"v{r}_af{j}", 48, 57)
             for si, sm in enumerate(rec["samples"]):
                 for k in (0, 2):
                     v = V.int(f"v{r}_g{si}_{k}", 46, 50); V.assume(v.t != 47)          # allele: . 0 1 2
@@ -351,7 +363,11 @@ class VCF(Harness):
             f.append([g(f"v{r}_f{j}") for j in range(2)])
             dp = list(b"DP=") + [g(f"v{r}_d{j}") for j in range(rec["dpw"])]
             pre = {"dp": b"", "dp_fl": b"", "fl_dp": b"FL;", "fla_dp": b"FLA;", "flx_dp": b"FLX=7;", "xdp_dp": b"XDP=9;", "fla_fl_dp": b"FLA;FL;"}[rec["info"]]
-            f.append(list(pre) + dp + (list(b";FL") if rec["info"] == "dp_fl" else []))
+            af = []
+            if rec.get("af"):
+                ip, fp = rec["af"]
+                af = list(b";AF=") + [g(f"v{r}_af{j}") for j in range(ip)] + ([46] + [g(f"v{r}_af{ip + j}") for j in range(fp)] if fp else [])
+            f.append(list(pre) + dp + (list(b";FL") if rec["info"] == "dp_fl" else []) + af)
             f.append(list(rec["fmt"].encode()))
             for si, sm in enumerate(rec["samples"]):
                 cell = [g(f"v{r}_g{si}_{k}") for k in range(3)]
@@ -383,6 +399,8 @@ class VCF(Harness):
         d = NpDataclassReader(NumpyFileReader(ctx.file(self._content(skel, x)), buf), lazy=False).read()
         res = dict(n=len(d), chrom=ctx.lst(d.chromosome.raw()), pos=ctx.lst(d.position), id=ctx.lst(d.id), ref=ctx.lst(d.ref_seq),
                    alt=ctx.lst(d.alt_seq), filter=ctx.lst(d.filter), dp=ctx.lst(d.info.DP), fl=ctx.lst(d.info.FL))
+        if any(rec.get("af") for rec in skel["recs"]):
+            res["af"] = ctx.lst(d.info.AF)
         if skel["buffer"] == "VCFBuffer2":
             res["gt"] = ctx.lst(d.genotype.raw())
         elif skel["buffer"] == "VCFMatrixBuffer":
@@ -434,6 +452,23 @@ class VCF(Harness):
                 conj.append(TI(got) == e)
         for k in ("chrom", "pos", "id", "ref", "alt", "filter", "dp", "fl"):
             eq(out[k], exp[k])
+        if "af" in out:
+            from symnp.core import T
+            if len(out["af"]) != n:
+                return False
+            for r, rec in enumerate(skel["recs"]):
+                got = out["af"][r]
+                if not rec.get("af"):          # the key is absent from this record: the missing value (NaN)
+                    conj.append(z3.BoolVal(isinstance(got, float) and got != got))
+                    continue
+                if isinstance(got, float) and got != got:
+                    conj.append(z3.BoolVal(False)); continue
+                ip, fp = rec["af"]
+                ds = [x[f"v{r}_af{j}"].t for j in range(ip + fp)]
+                ref = z3.ToReal(digits_value(ds[:ip], signed=False) if ip else z3.IntVal(0)) + \
+                    (z3.ToReal(digits_value(ds[ip:], signed=False)) / (10 ** fp) if fp else z3.RealVal(0))
+                g_ = T(got)
+                conj.append((z3.ToReal(g_) if not z3.is_real(g_) else g_) == ref)
         if "gt" in out:
             if skel["buffer"] == "VCFMatrixBuffer":
                 # decoded row text: genotypes of all samples joined by TAB
@@ -452,6 +487,17 @@ class VCF(Harness):
             return f"{cout['n']} entries from {len(skel['recs'])} VCF records"
         if skel["buffer"] == "VCFMatrixBuffer":
             exp["gt"] = [[t for si, gcell in enumerate(row) for t in (gcell + ([9] if si < len(row) - 1 else []))] for row in exp["gt"]]
+        if "af" in cout:
+            for r, rec in enumerate(skel["recs"]):
+                got = float(cout["af"][r])
+                if rec.get("af"):
+                    ip, fp = rec["af"]
+                    txt = bytes([cx[f"v{r}_af{j}"] for j in range(ip)] + ([46] + [cx[f"v{r}_af{ip + j}"] for j in range(fp)] if fp else [])).decode()
+                    want = float(txt)
+                    if not (got == got and abs(got - want) <= 1e-9 * max(1, abs(want))):
+                        return f"VCF records {text!r} ({skel['buffer']}): INFO key AF (Type=Float) of record {r} parsed as {got}, the text {txt!r} means {want}"
+                elif got == got:
+                    return f"VCF records {text!r} ({skel['buffer']}): INFO key AF is absent from record {r} but parsed as {got}"
         for k in exp:
             if k in cout and cout[k] != (exp[k] if k != "fl" else [bool(v) for v in exp[k]]) and not (k == "fl" and [bool(v) for v in cout[k]] == exp[k]):
                 return f"VCF records {text!r} ({skel['buffer']}): column {k} parsed as {cout[k]}, the text means {exp[k]}"
